@@ -2,10 +2,11 @@
 import Driver.OpsFactor
 import Driver.OpsCPD
 import Driver.OpsGraph
+import Driver.OpsHistory
 open Lean PgmVerif PgmVerif.Drv
 
 def handlers : List (String → Json → Option (Except String Json)) :=
-  [handleFactor, handleCPD, handleGraph]
+  [handleFactor, handleCPD, handleGraph, handleHistory]
 
 def handle (op : String) (j : Json) : Except String Json :=
   match handlers.findSome? (fun h => h op j) with
